@@ -1,7 +1,14 @@
 #!/usr/bin/env python3
-import json,glob
+"""table of the kept seeded changes from their meta.json; optional argument: base commit to select (round)"""
+import json, glob, sys
+base = sys.argv[1] if len(sys.argv) > 1 else None
+neg = base.startswith('!') if base else False
+if neg:
+    base = base[1:]
 print('| seeded change | property | needs, in order to manifest | detected by (quick tier, exit 1 + VIOLATION line) |')
 print('|---|---|---|---|')
 for f in sorted(glob.glob('/verif/seeded/*/meta.json')):
-    m=json.load(open(f))
-    print('| %s | %s | %s | %s |'%(m['name'],m['property'],m['needs_to_manifest'],', '.join(m.get('detected_by',[])) or '**not detected**'))
+    m = json.load(open(f))
+    if base and ((m.get('base_commit') == base) == neg):
+        continue
+    print('| %s | %s | %s | %s |' % (m['name'], m['property'], m['needs_to_manifest'].replace('|', '\\|').replace('\n', ' ')[:260], ', '.join(m.get('detected_by', [])) or '**not detected**'))
